@@ -18,6 +18,7 @@ func init() {
 		Assumptions: []string{"Bus.Send delivers synchronously to listeners registered before it copied the registry"},
 		Run:         runC03,
 		Controls: []Control{
+			{Name: "send-results-read-the-other-way-round", File: "internal/minibus/bus.go", Old: "\t\tok, active := l.send(ctx, event)\n", New: "\t\tactive, ok := l.send(ctx, event)\n", Expect: "R03.12"},
 			{Name: "unlock-before-listen", File: "pkg/resource/value.go", Old: "\t\tr.mu.RLock()\n\t\tdefer r.mu.RUnlock()\n\t\tvalue = r.value\n\t\tchangeTime = r.changeTime\n", New: "\t\tr.mu.RLock()\n\t\tvalue = r.value\n\t\tchangeTime = r.changeTime\n\t\tr.mu.RUnlock()\n", Expect: "R03.1"},
 			{Name: "subscribe-in-goroutine", File: "pkg/resource/value.go", Old: "\ton, currentValue, changeTime := r.onUpdate(ctx, readConfig)\n\ttypedEvents := make(chan *ValueChange)\n\tgo func() {\n\t\tdefer close(typedEvents)\n", New: "\ttypedEvents := make(chan *ValueChange)\n\tgo func() {\n\t\tdefer close(typedEvents)\n\t\ton, currentValue, changeTime := r.onUpdate(ctx, readConfig)\n", Expect: "R03.2"},
 			{Name: "pullid-subscribe-in-goroutine", File: "pkg/resource/collection.go", Old: "\tchanges := c.Pull(ctx, opts...)\n\n\tsend := make(chan *ValueChange)\n\tgo func() {\n\t\tdefer close(send)\n\t\tdefer cancel()\n", New: "\tsend := make(chan *ValueChange)\n\tgo func() {\n\t\tdefer close(send)\n\t\tdefer cancel()\n\t\tchanges := c.Pull(ctx, opts...)\n", Expect: "R03.2"},
@@ -36,6 +37,8 @@ const busSend = "(*" + an.ModulePath + "/internal/minibus.Bus).Send"
 const gauName = an.ModulePath + "/pkg/resource.GetAndUpdate"
 
 func runC03(c *an.Ctx) {
+	r109(c, "R03.12") // what Bus.Send makes of listener.send's two results (shared with R10.9)
+	c.Min("R03.12", 3)
 	r031(c)
 	r032(c)
 	r033(c)
@@ -51,6 +54,8 @@ func runC03(c *an.Ctx) {
 	// fold of the stream equal to the store (both are necessary for the folded view to converge)
 	r041as(c, "R03.9")
 	r091as(c, "R03.10")
+	r095(c, "R03.13") // the queue that merges them forgets an event once it is delivered (shared with R09.5)
+	c.Min("R03.13", 2)
 	c.Min("R03.9", 3)
 	c.Min("R03.10", 32)
 	// one event object is delivered to every subscriber: a subscriber's view converges only if nobody (another
@@ -186,6 +191,14 @@ func r033(c *an.Ctx) {
 		for _, h := range an.TransparentCalleesOf(fn, 1) {
 			hs, hc := collect(h)
 			if len(hs) == 0 {
+				// commits only (set = store + publish): its call sites in fn are the commits
+				if len(hc) > 0 {
+					an.Instrs(fn, func(in ssa.Instruction) {
+						if cl, ok := in.(*ssa.Call); ok && an.TransparentCallee(cl) == h {
+							fc = append(fc, in)
+						}
+					})
+				}
 				continue
 			}
 			if len(hc) > 0 {
@@ -287,7 +300,7 @@ func r034(c *an.Ctx, rule string) {
 	// Value.set
 	if fn := mustFunc(c, rule, resPkg, "Value", "set"); fn != nil {
 		name := "(*pkg/resource.Value).set"
-		gaus := an.CallsTo(fn, gauName)
+		gaus := deepInner(an.CallsToDeep(fn, gauName))
 		for i, vc := range an.CallsToDeep(fn, busSend) {
 			s := vc.Site
 			fields, _ := litFields(vc.Inner.Common().Args[2])
@@ -312,7 +325,7 @@ func r034(c *an.Ctx, rule string) {
 	// Collection.Update
 	if fn := mustFunc(c, rule, resPkg, "Collection", "Update"); fn != nil {
 		name := "(*pkg/resource.Collection).Update"
-		gaus := an.CallsTo(fn, gauName)
+		gaus := deepInner(an.CallsToDeep(fn, gauName))
 		for i, vc := range an.CallsToDeep(fn, busSend) {
 			s := vc.Site
 			fields, _ := litFields(vc.Inner.Common().Args[2])
@@ -390,6 +403,15 @@ func r034(c *an.Ctx, rule string) {
 				"the REMOVE event does not carry the deleted key and the body of the item that the locked identity re-check found stored (e.g. it is built before the retry loop from the first read): after a retry subscribers are told that a version was removed which had already been replaced, and a filtered subscriber whose predicate excluded that stale version never sees the removal")
 		}
 	}
+}
+
+// deepInner: the real call instructions behind a list of (possibly looked-through) calls.
+func deepInner(vcs []an.VirtualCall) []ssa.CallInstruction {
+	var out []ssa.CallInstruction
+	for _, vc := range vcs {
+		out = append(out, vc.Inner)
+	}
+	return out
 }
 
 func cellOfLoad(v ssa.Value) *an.Cell {
